@@ -13,7 +13,27 @@ from ..functional import (
 )
 
 
-class LogicConv2d(nn.Module):
+class _PersistentWiring:
+    """Persist the wiring of a logic convolution (kernel pairs and the index tensors derived
+    from them) in the state dict: it is part of the function the layer computes."""
+
+    def get_extra_state(self):
+        return {
+            "kernel_pairs": tuple(p.detach().cpu() for p in self.kernel_pairs),
+            "indices": [tuple(i.detach().cpu() for i in level) for level in self.indices],
+        }
+
+    def set_extra_state(self, state):
+        self.kernel_pairs = tuple(p.to(self.device) for p in state["kernel_pairs"])
+        self.indices = [tuple(i.to(self.device) for i in level) for level in state["indices"]]
+
+    def _load_from_state_dict(self, state_dict, prefix, *args, **kwargs):
+        # checkpoints written before the wiring was persisted carry no extra state: keep the current wiring
+        state_dict.setdefault(prefix + nn.modules.module._EXTRA_STATE_KEY_SUFFIX, self.get_extra_state())
+        super()._load_from_state_dict(state_dict, prefix, *args, **kwargs)
+
+
+class LogicConv2d(_PersistentWiring, nn.Module):
     """2d convolutional layer with differentiable logic operations.
 
     This layer implements a 2d convolution with differentiable logic operations.
@@ -363,7 +383,7 @@ class LogicConv2d(nn.Module):
         return indices
 
 
-class LogicConv3d(nn.Module):
+class LogicConv3d(_PersistentWiring, nn.Module):
     """3d convolutional layer with differentiable logic operations.
 
     This layer implements a 3d convolution with differentiable logic operations.
